@@ -49,7 +49,9 @@ BOUNDS = {
         "inverter, default eta with the numba inverter]): 7 grid letters (Cartesian/triangle, unperturbed, perturbed, affine) x (16 side-wise "
         "assignments U all single-face flips of all-Dir and all-Neu). Block P (periodic map): Tensor 2x2 /per-x, /per-y, "
         "Tensor 3x2 /per-xy, C(3,3) /per-y, Tensor 3x2 /per-y *1e3 x 4 K x default eta x all assignments. Block S: "
-        "scale 1e-3 / 1e3 on perturbed letters and eta = 0.25. Purity digest on every evaluation, reuse on every 4th."
+        "scale 1e-3 / 1e3 on perturbed letters and eta = 0.25. Purity digest on every evaluation, reuse on every 4th. Block D (3-d, python "
+        "inverter, default eta, K in {diag, full}, side-wise (64) U single flips): C(2,2,2), C(2,2,2)@shear, Tensor 2x2x2 uneven, "
+        "Prism(1,1;2 layers) and its affine image, Tet(1,1,1)~; C(2,2,2)@rotscale with numba."
     ),
     "thorough": (
         "quick + Block B with the full eta x inverter product; Block A with all 4 K and eta in {default,0,1/3}; C(3,2): all 81 two-node patterns x (side-wise U "
@@ -69,7 +71,7 @@ ETAS = [None, 0.0, 1.0 / 3.0]
 
 def _aset_size(spec, aset):
     nb = G.num_boundary_faces(spec)
-    dim = len(spec["coords"]) if spec["kind"] == "Tensor" else len(spec["n"])
+    dim = len(spec["coords"]) if spec["kind"] == "Tensor" else (3 if spec["kind"] == "Prism" else len(spec["n"]))
     if aset == "all":
         return 1 << nb
     n = 1 << (2 * dim)
@@ -141,6 +143,15 @@ def cases(tier):
             for eta in (None, 0.25):
                 _emit(out, spec, K, eta, "python", "flip1", 40)
         _emit(out, spec, "rot", 0.25, "numba", "flip1", 40)
+
+    # ---- Block D: 3-d letters with non-triangular faces (4 nodes per face) and a 3-d simplex letter
+    c222q = {"kind": "C", "n": [2, 2, 2]}
+    for spec in (c222q, dict(c222q, affine="shear"), {"kind": "Tensor", "coords": [[0, 1, 3], [0, 2, 3], [0, 0.5, 2]]},
+                 {"kind": "Prism", "n": [1, 1], "z": [0, 1, 2.5]}, {"kind": "Prism", "n": [1, 1], "z": [0, 1, 2.5], "affine": "rotscale"},
+                 {"kind": "Tet", "n": [1, 1, 1], "pert": [[0, [1, -1, 1]]]}):
+        for K in ("diag", "full"):
+            _emit(out, spec, K, None, "python", "flip1", 40)
+    _emit(out, dict(c222q, affine="rotscale"), "rot", None, "numba", "flip1", 40)
 
     if tier == "thorough":
         # C(3,2): every pattern on the two interior nodes
